@@ -119,6 +119,15 @@ func propC20(c *Ctx, r *Report) {
 	tick, max := c.tickers()
 	ruleCompactOrigin(c, r, "C20/compact-origin")
 	ruleEncoderGate(c, r, "C20/encoder-gate")
+	{
+		scope := map[*ssa.Function]bool{}
+		for _, f := range c.Funcs {
+			if f.Pkg != nil && f.Pkg.Pkg.Name() == "fat2" {
+				scope[f] = true
+			}
+		}
+		ruleAppendedRecordFresh(c, r, "C20/decoded-record-fresh", scope)
+	}
 
 	// ticker table
 	r.rule("C20/ticker-table", 1, "validPTickerStrings[i] is the name of enum constant i+1")
